@@ -94,7 +94,7 @@ class ReadSession:
             raise
         self.open_log = list(self.handle.log)
         self.handle.log.clear()
-        self.data_start = spec.DISK * 2
+        self.data_start = getattr(fi, 'data_start', spec.DISK * 2)
 
     def cold(self):
         self.r.loader.clear_cache()
